@@ -1252,8 +1252,8 @@ PyObject * matrix_elem_max(PyObject *self, PyObject *args, PyObject *kwrds)
   PyObject *A, *B;
   if (!PyArg_ParseTuple(args, "OO:emax", &A, &B)) return NULL;
 
-  if (!(X_Matrix_Check(A) || PyNumber_Check(A)) ||
-      !(X_Matrix_Check(B) || PyNumber_Check(B)))
+  if (!(X_Matrix_Check(A) || PY_NUMBER(A)) ||
+      !(X_Matrix_Check(B) || PY_NUMBER(B)))
     PY_ERR_TYPE("arguments must be either matrices or python numbers");
 
   if (PyComplex_Check(A) || (X_Matrix_Check(A) && X_ID(A)==COMPLEX))
@@ -1262,27 +1262,27 @@ PyObject * matrix_elem_max(PyObject *self, PyObject *args, PyObject *kwrds)
   if (PyComplex_Check(B) || (X_Matrix_Check(B) && X_ID(B)==COMPLEX))
     PY_ERR_TYPE("ordering not defined for complex numbers");
 
-  int a_is_number = PyNumber_Check(A) ||
+  int a_is_number = PY_NUMBER(A) ||
       (Matrix_Check(A) && MAT_LGT(A) == 1) ||
       (SpMatrix_Check(A) && SP_LGT(A) == 1);
-  int b_is_number = PyNumber_Check(B) ||
+  int b_is_number = PY_NUMBER(B) ||
       (Matrix_Check(B) && MAT_LGT(B) == 1) ||
       (SpMatrix_Check(B) && SP_LGT(B) == 1);
 
-  int ida = PyNumber_Check(A) ? PyFloat_Check(A) : X_ID(A);
-  int idb = PyNumber_Check(B) ? PyFloat_Check(B) : X_ID(B);
+  int ida = PY_NUMBER(A) ? PyFloat_Check(A) : X_ID(A);
+  int idb = PY_NUMBER(B) ? PyFloat_Check(B) : X_ID(B);
   int id  = MAX( ida, idb );
 
   number a, b;
   if (a_is_number) {
-    if (PyNumber_Check(A) || Matrix_Check(A))
-      convert_num[id](&a, A, PyNumber_Check(A), 0);
+    if (PY_NUMBER(A) || Matrix_Check(A))
+      convert_num[id](&a, A, PY_NUMBER(A), 0);
     else
       a.d = ((SP_LGT(A) > 0) ? SP_VALD(A)[0] : 0.0);
   }
   if (b_is_number) {
-    if (PyNumber_Check(B) || Matrix_Check(B))
-      convert_num[id](&b, B, PyNumber_Check(B), 0);
+    if (PY_NUMBER(B) || Matrix_Check(B))
+      convert_num[id](&b, B, PY_NUMBER(B), 0);
     else
       b.d = ((SP_LGT(B) > 0) ? SP_VALD(B)[0] : 0.0);
   }
@@ -1431,8 +1431,8 @@ PyObject * matrix_elem_min(PyObject *self, PyObject *args, PyObject *kwrds)
   PyObject *A, *B;
   if (!PyArg_ParseTuple(args, "OO:emin", &A, &B)) return NULL;
 
-  if (!(X_Matrix_Check(A) || PyNumber_Check(A)) ||
-      !(X_Matrix_Check(B) || PyNumber_Check(B)))
+  if (!(X_Matrix_Check(A) || PY_NUMBER(A)) ||
+      !(X_Matrix_Check(B) || PY_NUMBER(B)))
     PY_ERR_TYPE("arguments must be either matrices or python numbers");
 
   if (PyComplex_Check(A) || (X_Matrix_Check(A) && X_ID(A)==COMPLEX))
@@ -1441,27 +1441,27 @@ PyObject * matrix_elem_min(PyObject *self, PyObject *args, PyObject *kwrds)
   if (PyComplex_Check(B) || (X_Matrix_Check(B) && X_ID(B)==COMPLEX))
     PY_ERR_TYPE("ordering not defined for complex numbers");
 
-  int a_is_number = PyNumber_Check(A) ||
+  int a_is_number = PY_NUMBER(A) ||
       (Matrix_Check(A) && MAT_LGT(A) == 1) ||
       (SpMatrix_Check(A) && SP_LGT(A) == 1);
-  int b_is_number = PyNumber_Check(B) ||
+  int b_is_number = PY_NUMBER(B) ||
       (Matrix_Check(B) && MAT_LGT(B) == 1) ||
       (SpMatrix_Check(B) && SP_LGT(B) == 1);
 
-  int ida = PyNumber_Check(A) ? PyFloat_Check(A) : X_ID(A);
-  int idb = PyNumber_Check(B) ? PyFloat_Check(B) : X_ID(B);
+  int ida = PY_NUMBER(A) ? PyFloat_Check(A) : X_ID(A);
+  int idb = PY_NUMBER(B) ? PyFloat_Check(B) : X_ID(B);
   int id  = MAX( ida, idb );
 
   number a, b;
   if (a_is_number) {
-    if (PyNumber_Check(A) || Matrix_Check(A))
-      convert_num[id](&a, A, PyNumber_Check(A), 0);
+    if (PY_NUMBER(A) || Matrix_Check(A))
+      convert_num[id](&a, A, PY_NUMBER(A), 0);
     else
       a.d = ((SP_LGT(A) > 0) ? SP_VALD(A)[0] : 0.0);
   }
   if (b_is_number) {
-    if (PyNumber_Check(B) || Matrix_Check(B))
-      convert_num[id](&b, B, PyNumber_Check(B), 0);
+    if (PY_NUMBER(B) || Matrix_Check(B))
+      convert_num[id](&b, B, PY_NUMBER(B), 0);
     else
       b.d = ((SP_LGT(B) > 0) ? SP_VALD(B)[0] : 0.0);
   }
@@ -1610,12 +1610,12 @@ PyObject * matrix_elem_mul(matrix *self, PyObject *args, PyObject *kwrds)
   PyObject *A, *B;
   if (!PyArg_ParseTuple(args, "OO:emul", &A, &B)) return NULL;
 
-  if (!(X_Matrix_Check(A) || PyNumber_Check(A)) ||
-      !(X_Matrix_Check(B) || PyNumber_Check(B)))
+  if (!(X_Matrix_Check(A) || PY_NUMBER(A)) ||
+      !(X_Matrix_Check(B) || PY_NUMBER(B)))
     PY_ERR_TYPE("arguments must be either matrices or python numbers");
 
-  int a_is_number = PyNumber_Check(A) || (Matrix_Check(A) && MAT_LGT(A) == 1);
-  int b_is_number = PyNumber_Check(B) || (Matrix_Check(B) && MAT_LGT(B) == 1);
+  int a_is_number = PY_NUMBER(A) || (Matrix_Check(A) && MAT_LGT(A) == 1);
+  int b_is_number = PY_NUMBER(B) || (Matrix_Check(B) && MAT_LGT(B) == 1);
 
   int ida, idb;
 #if PY_MAJOR_VERSION >= 3
@@ -1639,8 +1639,8 @@ PyObject * matrix_elem_mul(matrix *self, PyObject *args, PyObject *kwrds)
   int id  = MAX( ida, idb );
 
   number a, b;
-  if (a_is_number) convert_num[id](&a, A, PyNumber_Check(A), 0);
-  if (b_is_number) convert_num[id](&b, B, PyNumber_Check(B), 0);
+  if (a_is_number) convert_num[id](&a, A, PY_NUMBER(A), 0);
+  if (b_is_number) convert_num[id](&b, B, PY_NUMBER(B), 0);
 
   if (a_is_number && b_is_number &&
       (!X_Matrix_Check(A) && !X_Matrix_Check(B))) {
@@ -1822,15 +1822,15 @@ PyObject * matrix_elem_div(matrix *self, PyObject *args, PyObject *kwrds)
   PyObject *A, *B, *ret;
   if (!PyArg_ParseTuple(args, "OO:ediv", &A, &B)) return NULL;
 
-  if (!(X_Matrix_Check(A) || PyNumber_Check(A)) ||
-      !(X_Matrix_Check(B) || PyNumber_Check(B)))
+  if (!(X_Matrix_Check(A) || PY_NUMBER(A)) ||
+      !(X_Matrix_Check(B) || PY_NUMBER(B)))
     PY_ERR_TYPE("arguments must be either matrices or python numbers");
 
   if (SpMatrix_Check(B))
     PY_ERR_TYPE("elementwise division with sparse matrix\n");
 
-  int a_is_number = PyNumber_Check(A) || (Matrix_Check(A) && MAT_LGT(A) == 1);
-  int b_is_number = PyNumber_Check(B) || (Matrix_Check(B) && MAT_LGT(B) == 1);
+  int a_is_number = PY_NUMBER(A) || (Matrix_Check(A) && MAT_LGT(A) == 1);
+  int b_is_number = PY_NUMBER(B) || (Matrix_Check(B) && MAT_LGT(B) == 1);
 
   int ida, idb;
 #if PY_MAJOR_VERSION >= 3
@@ -1858,8 +1858,8 @@ PyObject * matrix_elem_div(matrix *self, PyObject *args, PyObject *kwrds)
 #endif
 
   number a, b;
-  if (a_is_number) convert_num[id](&a, A, PyNumber_Check(A), 0);
-  if (b_is_number) convert_num[id](&b, B, PyNumber_Check(B), 0);
+  if (a_is_number) convert_num[id](&a, A, PY_NUMBER(A), 0);
+  if (b_is_number) convert_num[id](&b, B, PY_NUMBER(B), 0);
 
   if ((a_is_number && b_is_number) &&
       (!X_Matrix_Check(A) && !Matrix_Check(B))) {
